@@ -16,6 +16,12 @@ from collections import deque
 import serial
 
 def make_exc(name, text):
+    if name.startswith("OSError:"):
+        # an OSError carrying an errno: Python turns these into the matching subclass
+        # (EINTR -> InterruptedError, EAGAIN -> BlockingIOError, EPIPE -> BrokenPipeError, ...), which
+        # is what a file-descriptor level read()/write() under pyserial really raises
+        import errno
+        return OSError(getattr(errno, name.split(":", 1)[1]), text)
     cls = EXC[name]
     try:
         return cls(text)
@@ -30,6 +36,10 @@ EXC = {
     "OSError": OSError,
     "IOError": IOError,
 }
+# OSError family by errno: "interrupted, try again" style codes are the ones a well-meaning retry loop
+# singles out, the others are what an unplugged / reset USB device produces
+OS_ERRNO_EXC = ("OSError:EINTR", "OSError:EAGAIN", "OSError:EIO", "OSError:EPIPE", "OSError:ENODEV",
+                "OSError:ETIMEDOUT", "OSError:ECONNRESET", "OSError:EBADF", "OSError:EACCES")
 
 
 class EventLog:
